@@ -4,7 +4,7 @@ CONSTANTS
   Dirs = {"<", ">"}
   MaxDirs = 2
   FieldLens = {1, 3, 7}
-  Opts = {"", "~", "#"}
+  Opts = {"", "#"}
   EqLens = {1}
   ByteVals = {47}
   Stars = TRUE
